@@ -15,6 +15,27 @@ time_t __wrap_time(time_t * p)
 	return t;
 }
 
+/* allocation failure injection (C14): the k-th allocation made by library code is refused.
+ * asprintf.c's malloc and aws_sign.c's strdup are call sites inside the objects we link, so
+ * --wrap=malloc,strdup intercepts exactly the library's own allocations. */
+void * __real_malloc(size_t);
+char * __real_strdup(const char *);
+static long drv_failk;	/* 0 = never fail */
+static long drv_nalloc;
+static int drv_inlib;
+
+void * __wrap_malloc(size_t n)
+{
+	if (drv_inlib && drv_failk && ++drv_nalloc == drv_failk) return NULL;
+	return __real_malloc(n);
+}
+
+char * __wrap_strdup(const char * s)
+{
+	if (drv_inlib && drv_failk && ++drv_nalloc == drv_failk) return NULL;
+	return __real_strdup(s);
+}
+
 static char * cstr_of(const char * tok)
 {
 	size_t n; uint8_t * p = drv_unhex(tok, &n, 1);
@@ -29,6 +50,12 @@ int main(void)
 	setvbuf(stdout, NULL, _IOLBF, 0);
 	while ((line = drv_getline()) != NULL) {
 		int n = drv_split(line, tok, 12);
+		drv_failk = 0; drv_nalloc = 0;
+		if (n >= 3 && strcmp(tok[0], "fail") == 0) {
+			int j; drv_failk = atol(tok[1]);
+			for (j = 2; j < n; j++) tok[j - 2] = tok[j];
+			n -= 2;
+		}
 		char * a[8]; int i; char * c = NULL, * d = NULL, * au = NULL;
 		uint8_t * body = NULL; size_t bodylen = 0; int rc;
 		drv_tcalls = 0;
@@ -36,7 +63,7 @@ int main(void)
 			for (i = 0; i < 6; i++) a[i] = cstr_of(tok[1 + i]);
 			if (strcmp(tok[7], "NULL") != 0) body = drv_unhex(tok[7], &bodylen, 0);
 			drv_t0 = (time_t)strtoll(tok[8], NULL, 10);
-			rc = aws_sign_s3_headers(a[0], a[1], a[2], a[3], a[4], a[5], body, bodylen, &c, &d, &au);
+			drv_inlib = 1; rc = aws_sign_s3_headers(a[0], a[1], a[2], a[3], a[4], a[5], body, bodylen, &c, &d, &au); drv_inlib = 0;
 			if (rc == 0) { printf("ok "); puthexstr(c); printf(" "); puthexstr(d); printf(" "); puthexstr(au); printf("\n"); free(c); free(d); free(au); }
 			else printf("fail\n");
 			for (i = 0; i < 6; i++) free(a[i]);
@@ -45,17 +72,19 @@ int main(void)
 			char * q;
 			for (i = 0; i < 6; i++) a[i] = cstr_of(tok[1 + i]);
 			drv_t0 = (time_t)strtoll(tok[8], NULL, 10);
-			q = aws_sign_s3_querystr(a[0], a[1], a[2], a[3], a[4], a[5], atoi(tok[7]));
+			drv_inlib = 1; q = aws_sign_s3_querystr(a[0], a[1], a[2], a[3], a[4], a[5], atoi(tok[7])); drv_inlib = 0;
 			if (q) { printf("ok "); puthexstr(q); printf("\n"); free(q); } else printf("fail\n");
 			for (i = 0; i < 6; i++) free(a[i]);
 		} else if (n == 7 && (strcmp(tok[0], "svc") == 0 || strcmp(tok[0], "ddb") == 0)) {
 			for (i = 0; i < 4; i++) a[i] = cstr_of(tok[1 + i]);
 			if (strcmp(tok[5], "NULL") != 0) body = drv_unhex(tok[5], &bodylen, 0);
 			drv_t0 = (time_t)strtoll(tok[6], NULL, 10);
+			drv_inlib = 1;
 			if (tok[0][0] == 's')
 				rc = aws_sign_svc_headers(a[0], a[1], a[2], a[3], body, bodylen, &c, &d, &au);
 			else
 				rc = aws_sign_dynamodb_headers(a[0], a[1], a[2], a[3], body, bodylen, &c, &d, &au);
+			drv_inlib = 0; drv_inlib = 0;
 			if (rc == 0) { printf("ok "); puthexstr(c); printf(" "); puthexstr(d); printf(" "); puthexstr(au); printf("\n"); free(c); free(d); free(au); }
 			else printf("fail\n");
 			for (i = 0; i < 4; i++) free(a[i]);
